@@ -96,6 +96,43 @@ package cache
 //@   loop 1 invariant forall(k, string, has(c.items, k) ==> atlock(has(c.items, k)) && c.items[k] == atlock(c.items[k]))
 //@   loop 1 decreases llen(c.evictList)
 
+// DeleteByTag: removes exactly the entries carrying the tag (each once), keeps the others
+// where they were, and reports how many it removed.
+//@ spec func hasTag(e *Entry, tag string) bool = exists(i, 0, len(e.Tags), e.Tags[i] == tag)
+//@ func (*LRUCache).DeleteByTag
+//@   requires c != nil
+//@   dyncall modifies nothing
+//@   ensures forall(k, string, has(c.items, k) ==> atlock(has(c.items, k)) && c.items[k] == atlock(c.items[k]))
+//@   ensures result == atlock(llen(c.evictList)) - llen(c.evictList)
+//@   ensures forall(k, string, has(c.items, k) ==> !hasTag(ent(c.items[k]), tag))
+//@   ensures forall(k, string, atlock(has(c.items, k)) && !hasTag(ent(atlock(c.items[k])), tag) ==> has(c.items, k))
+//@   loop 1 invariant forall(k, string, visited(1, k) && has(c.items, k) && hasTag(ent(c.items[k]), tag) ==> exists(j, 0, len(toRemove), toRemove[j] == c.items[k]))
+//@   loop 1 invariant forall(j, 0, len(toRemove), hasTag(ent(toRemove[j]), tag))
+//@   loop 2 invariant forall(i, 0, rangeidx, entry.Tags[i] != tag)
+//@   loop 3 invariant forall(k, string, has(c.items, k) && hasTag(ent(c.items[k]), tag) ==> exists(j, rangeidx, len(toRemove), toRemove[j] == c.items[k]))
+//@   loop 3 invariant forall(k, string, atlock(has(c.items, k)) && !has(c.items, k) ==> hasTag(ent(atlock(c.items[k])), tag))
+//@   loop 3 invariant forall(j, 0, len(toRemove), hasTag(ent(toRemove[j]), tag))
+//@   loop 1 invariant heldw(lk(c)) && wfBase(c)
+//@   loop 1 invariant forall(j, 0, len(toRemove), toRemove[j] != nil && lmember(c.evictList, toRemove[j]) && visited(1, ent(toRemove[j]).Key) && has(c.items, ent(toRemove[j]).Key) && c.items[ent(toRemove[j]).Key] == toRemove[j])
+//@   loop 1 invariant forall(i, 0, len(toRemove), forall(j, 0, i, toRemove[i] != toRemove[j]))
+//@   loop 3 invariant heldw(lk(c)) && wfBase(c) && llen(c.evictList) == atlock(llen(c.evictList)) - rangeidx
+//@   loop 3 invariant forall(j, rangeidx, len(toRemove), toRemove[j] != nil && lmember(c.evictList, toRemove[j]))
+//@   loop 3 invariant forall(i, 0, len(toRemove), forall(j, 0, i, toRemove[i] != toRemove[j]))
+//@   loop 3 invariant forall(k, string, has(c.items, k) ==> atlock(has(c.items, k)) && c.items[k] == atlock(c.items[k]))
+
+// cleanup (the background sweeper): every sweep is one critical section that removes only
+// expired entries, each once, and re-establishes the representation invariant.
+//@ func (*LRUCache).cleanup
+//@   requires c != nil
+//@   dyncall modifies nothing
+//@   loop 2 invariant heldw(lk(c)) && wfBase(c) && wfCap(c)
+//@   loop 2 invariant forall(j, 0, len(expired), expired[j] != nil && lmember(c.evictList, expired[j]) && visited(1, ent(expired[j]).Key) && has(c.items, ent(expired[j]).Key) && c.items[ent(expired[j]).Key] == expired[j])
+//@   loop 2 invariant forall(i, 0, len(expired), forall(j, 0, i, expired[i] != expired[j]))
+//@   loop 3 invariant heldw(lk(c)) && wfBase(c) && wfCap(c)
+//@   loop 3 invariant forall(j, rangeidx, len(expired), expired[j] != nil && lmember(c.evictList, expired[j]))
+//@   loop 3 invariant forall(i, 0, len(expired), forall(j, 0, i, expired[i] != expired[j]))
+//@   loop 3 invariant forall(k, string, has(c.items, k) ==> atlock(has(c.items, k)) && c.items[k] == atlock(c.items[k]))
+
 // Clear: afterwards nothing is cached.
 //@ func (*LRUCache).Clear
 //@   requires c != nil
